@@ -357,6 +357,11 @@ func (bindings *BindStms) compileWildcard(binding *BindStm,
 	ref := binding.Exp.(*RefExp)
 	var errs ErrorList
 	if ref.Kind == KindSelf && ref.Id == "" {
+		if pipeline == nil {
+			// A top-level call is not inside of any pipeline.
+			return global.err(binding,
+				"ReferenceError: a wildcard binding to self cannot be resolved outside of a pipeline.")
+		}
 		fakeBindings := make([]BindStm, len(pipeline.InParams.List))
 		for i, m := range pipeline.InParams.List {
 			if _, ok := params.GetParam(m.Id); !ok {
